@@ -625,6 +625,11 @@ impl<'c, 'ch: 'c> Records<'c, 'ch> {
     }
 
     fn read_sequence(&mut self, read_length: usize) -> io::Result<Cow<'c, [u8]>> {
+        // Empty external blocks are not written.
+        if read_length == 0 {
+            return Ok(Cow::from(&[][..]));
+        }
+
         let encoding = self
             .compression_header
             .data_series_encodings()
@@ -640,6 +645,11 @@ impl<'c, 'ch: 'c> Records<'c, 'ch> {
 
     fn read_quality_scores(&mut self, read_length: usize) -> io::Result<Cow<'c, [u8]>> {
         const MISSING: u8 = 0xff;
+
+        // Empty external blocks are not written.
+        if read_length == 0 {
+            return Ok(Cow::from(&[][..]));
+        }
 
         let encoding = self
             .compression_header
